@@ -323,14 +323,18 @@ func c17Verdict(c *fw.Ctx, cid, what string, err error, gotResult bool, written 
 }
 
 func c17Restore(c *fw.Ctx, id string, src []byte) {
-	mk := func() *dst.File {
-		d := decorator.NewDecoratorWithImports(token.NewFileSet(), "example.com/self", goast.New())
-		df, err := d.Parse(src)
-		if err != nil {
-			return nil
-		}
-		c17Edit(df)
-		return df
+	mk := func() (out *dst.File) {
+		// a panic here (malformed import declarations) is C15's business, not this check's
+		fw.Try(func() {
+			d := decorator.NewDecoratorWithImports(token.NewFileSet(), "example.com/self", goast.New())
+			df, err := d.Parse(src)
+			if err != nil {
+				return
+			}
+			c17Edit(df)
+			out = df
+		})
+		return out
 	}
 	df := mk()
 	if df == nil {
